@@ -29,4 +29,21 @@ FilterOnlyHides ==
     (Out(cfg).files /\ cfg.O) => (Out(cfg).funcs = (IF cfg.useF /\ cfg.F # {} THEN all.funcs \cap cfg.F ELSE all.funcs))
 (* the outcome does not depend on -F when -O is absent and -F is empty, nor on lint warnings unless -c *)
 WarningsOnlyMatterForCheck == ~cfg.check => Out(cfg) = CliOutcome(cfg, ParseOK(cfg), 0, Msgs)
+
+(* the spelling of the -F list: for every token sequence of at most 5 tokens over two names, the   *)
+(* comma and the blank, a message name is selected exactly when it stands alone between two        *)
+(* separators (commas or the ends), with nothing but blanks around it                             *)
+Alphabet == {"A", "B", ",", " "}
+Spellings == UNION {[1..n -> Alphabet] : n \in 0..5}
+Alone(toks, i) ==
+    LET lo == IF \E x \in 1..(i - 1) : toks[x] = ","
+              THEN (CHOOSE x \in 1..(i - 1) : toks[x] = "," /\ \A y \in (x + 1)..(i - 1) : toks[y] # ",") ELSE 0
+        hi == IF \E x \in (i + 1)..Len(toks) : toks[x] = ","
+              THEN (CHOOSE x \in (i + 1)..Len(toks) : toks[x] = "," /\ \A y \in (i + 1)..(x - 1) : toks[y] # ",")
+              ELSE Len(toks) + 1
+    IN  \A x \in ((lo + 1)..(hi - 1)) \ {i} : toks[x] = " "
+SpellingSelects ==
+    \A toks \in Spellings : \A n \in {"A", "B"} :
+        (n \in FilterNames(toks)) <=> (\E i \in 1..Len(toks) : toks[i] = n /\ Alone(toks, i))
+ASSUME SpellingSelects
 =============================================================================
